@@ -13,7 +13,39 @@ from sim.fingerprint import _canon_scalar, observe
 from sim.world import Session, classify, exc_signature, reference_world
 
 
-def meta_desc(meta):
+def dtype_kind(dtype):
+    """int / float / bool / str / dt / td / cat / obj.  pandas 3 reports 'str' where dask 2024.3 converts to
+    'string[pyarrow]': the same schema as far as any property here is concerned."""
+    if isinstance(dtype, pd.CategoricalDtype):
+        return "cat"
+    t = pd.api.types
+    if t.is_bool_dtype(dtype):
+        return "bool"
+    if t.is_integer_dtype(dtype):
+        return "int"
+    if t.is_float_dtype(dtype):
+        return "float"
+    if t.is_datetime64_any_dtype(dtype):
+        return "dt"
+    if t.is_timedelta64_dtype(dtype):
+        return "td"
+    if t.is_string_dtype(dtype) and not t.is_object_dtype(dtype):
+        return "str"
+    if str(dtype) in ("str", "string"):
+        return "str"
+    return "obj"
+
+
+def meta_desc(meta, kinds=False):
+    if kinds:
+        if isinstance(meta, pd.DataFrame):
+            return {"type": "frame", "columns": [repr(c) for c in meta.columns], "dtypes": [dtype_kind(t) for t in meta.dtypes],
+                    "index_names": [repr(n) for n in meta.index.names], "index_dtype": dtype_kind(meta.index.dtype)}
+        if isinstance(meta, pd.Series):
+            return {"type": "series", "name": repr(meta.name), "dtype": dtype_kind(meta.dtype), "index_names": [repr(n) for n in meta.index.names],
+                    "index_dtype": dtype_kind(meta.index.dtype)}
+        if isinstance(meta, pd.Index):
+            return {"type": "index", "names": [repr(n) for n in meta.names], "dtype": dtype_kind(meta.dtype)}
     if isinstance(meta, pd.DataFrame):
         return {"type": "frame", "columns": [repr(c) for c in meta.columns], "dtypes": [str(t) for t in meta.dtypes],
                 "index_names": [repr(n) for n in meta.index.names], "index_dtype": str(meta.index.dtype)}
@@ -46,6 +78,8 @@ def describe(coll, det=None, ses=None, compute=True, fuse=True, want=("name", "m
         out["name"] = _guard(lambda: coll._name)
     if "meta" in want:
         out["meta"] = _guard(lambda: meta_desc(coll._meta))
+    if "meta_kinds" in want:
+        out["meta_kinds"] = _guard(lambda: meta_desc(coll._meta, kinds=True))
     if "divisions" in want:
         out["divisions"] = _guard(lambda: canon_divisions(coll))
     if "npartitions" in want:
